@@ -43,6 +43,11 @@ BODIES = {
     'error-object-empty-message': '{"error":"IllegalArgumentException",'
                                   '"errorMessage":""}',
     'error-object-both-empty': '{"error":"","errorMessage":"","cause":""}',
+    # ... and ones with white space around them (still JSON)
+    'error-object-leading-space': ' {"error":"ForbiddenOperationException",'
+                                  '"errorMessage":"Invalid credentials."}',
+    'error-object-leading-crlf': '\r\n\t{"error":"E","errorMessage":"m",'
+                                 '"cause":"c"}\n',
     'partial-error-object': '{"error":"OnlyError"}',
     'partial-error-object-2': '{"errorMessage":"only the message"}',
     'json-object-other': '{"foo":1}',
